@@ -30,7 +30,9 @@ import (
 	"fmt"
 	"go/token"
 	"go/types"
+	"os"
 	"path/filepath"
+	"regexp"
 	"sort"
 	"strings"
 
@@ -104,6 +106,11 @@ func genWrites(c *Ctx) (string, error) {
 	for _, fn := range fns {
 		for _, b := range fn.Blocks {
 			for _, ins := range b.Instrs {
+				// a call that hands a package-level variable (its address, or the pointer/map/slice it holds) to a
+				// method or function that may write through it: sync.Map.Store, sync.Pool.Put, (*T).Set …
+				for _, gc := range globalCalls(ins) {
+					facts = append(facts, a.fact(fn, ins, gc.root, "call "+gc.callee))
+				}
 				target, kind := writeTarget(ins)
 				if target == nil {
 					continue
@@ -177,13 +184,17 @@ func genWrites(c *Ctx) (string, error) {
 		if c.Verbose {
 			fmt.Printf("translate: T3 fact %s %s %s %s inInit=%v %s %s %s\n", f.Pkg, f.Fn, f.Var, f.Cls, f.InInit, f.Pos, f.Kind, f.Why)
 		}
+		if f.Cls == "globalCall" && !f.InInit && !auditedGlobalCall(c, f.Pkg, f.Var) {
+			fmt.Printf("OBLIGATION global_calls_audited BROKEN pkg=%s fn=%s hands package-level variable %s to %s at %s: it may be written through (a cache, a pool, a registry) by whichever goroutine gets there\n",
+				f.Pkg, f.Fn, f.Var, strings.TrimPrefix(f.Kind, "call "), f.Pos)
+		}
 		if f.Cls == "capturedEscaping" || (f.Cls == "global" && !f.InInit) {
 			fmt.Printf("OBLIGATION no_shared_writes BROKEN pkg=%s fn=%s var=%s cls=%s inInit=%v at %s (%s%s)\n",
 				f.Pkg, f.Fn, f.Var, f.Cls, f.InInit, f.Pos, f.Kind, map[bool]string{true: "; closure " + f.Why, false: ""}[f.Why != ""])
 		}
 	}
-	fmt.Printf("translate: T3 %d functions, %d stores, %d rows: capturedLocal=%d capturedEscaping=%d synchronised=%d global=%d\n",
-		len(fns), nStores, len(facts), counts["capturedLocal"], counts["capturedEscaping"], counts["synchronised"], counts["global"])
+	fmt.Printf("translate: T3 %d functions, %d stores, %d rows: capturedLocal=%d capturedEscaping=%d synchronised=%d global=%d globalCall=%d\n",
+		len(fns), nStores, len(facts), counts["capturedLocal"], counts["capturedEscaping"], counts["synchronised"], counts["global"], counts["globalCall"])
 	return sb.String(), nil
 }
 
@@ -352,6 +363,9 @@ func (a *writesAnalysis) fact(fn *ssa.Function, ins ssa.Instruction, root ssa.Va
 	switch r := root.(type) {
 	case *ssa.Global:
 		f.Cls = "global"
+		if strings.HasPrefix(kind, "call ") {
+			f.Cls = "globalCall"
+		}
 		if r.Pkg != top.Pkg {
 			f.Var = r.Pkg.Pkg.Path() + "." + r.Name()
 		}
@@ -588,4 +602,106 @@ func calleeName(f *ssa.Function) string {
 		return f.Pkg.Pkg.Path() + "." + f.Name()
 	}
 	return f.String()
+}
+
+type globalCall struct {
+	root   *ssa.Global
+	callee string
+}
+
+// readOnlyCallees: methods and functions that are documented as safe for concurrent use and do not change the
+// value they are handed (the compiled regexps, reflect.Type values, sort's read of a comparison table, fmt verbs).
+func readOnlyCallee(callee *ssa.Function) bool {
+	if callee == nil || callee.Pkg == nil {
+		return false
+	}
+	switch callee.Pkg.Pkg.Path() {
+	case "regexp", "reflect", "fmt", "strings", "strconv", "unicode", "unicode/utf8", "errors", "math", "time", "bytes", "sort", "html", "net/url":
+		return true
+	}
+	return false
+}
+
+// globalCalls: the package-level variables of the LIBRARY whose address, or a reference value loaded from them
+// (pointer, map, slice, channel, interface, func), is the receiver or an argument of a call that is not known
+// to be read-only. Calls into the library's own functions are followed by the store analysis of those
+// functions only when they write through a package-level root themselves, so a pointer parameter is treated as
+// written by the callee unless the callee is in the read-only list.
+func globalCalls(ins ssa.Instruction) []globalCall {
+	ci, ok := ins.(ssa.CallInstruction)
+	if !ok {
+		return nil
+	}
+	com := ci.Common()
+	if _, isBuiltin := com.Value.(*ssa.Builtin); isBuiltin {
+		return nil
+	}
+	name := ""
+	var callee *ssa.Function
+	if com.IsInvoke() {
+		name = "interface method " + com.Method.Name()
+	} else if callee = com.StaticCallee(); callee != nil {
+		name = callee.String()
+	} else {
+		name = "a function value"
+	}
+	if readOnlyCallee(callee) {
+		return nil
+	}
+	var out []globalCall
+	seen := map[*ssa.Global]bool{}
+	args := com.Args
+	if com.IsInvoke() {
+		args = append([]ssa.Value{com.Value}, args...)
+	}
+	for _, arg := range args {
+		if !mayBeWrittenThrough(arg.Type()) {
+			continue
+		}
+		for _, r := range roots(arg) {
+			if g, ok := r.(*ssa.Global); ok && !seen[g] {
+				seen[g] = true
+				out = append(out, globalCall{g, name})
+			}
+		}
+	}
+	return out
+}
+
+// mayBeWrittenThrough: can a callee change shared memory through a value of this type?
+func mayBeWrittenThrough(t types.Type) bool {
+	switch u := t.Underlying().(type) {
+	case *types.Pointer, *types.Map, *types.Slice, *types.Chan:
+		return true
+	case *types.Interface, *types.Signature:
+		return true
+	case *types.Struct:
+		for i := 0; i < u.NumFields(); i++ {
+			if mayBeWrittenThrough(u.Field(i).Type()) {
+				return true
+			}
+		}
+	}
+	return false
+}
+
+var auditedGlobalRe = regexp.MustCompile(`\("([^"]*)", "([^"]*)"\)`)
+
+// auditedGlobalCall: is (pkg, var) in the table auditedGlobalCalls of Liquid/ConcFacts.lean? (diagnostics only:
+// the Lean obligation global_calls_audited is what decides)
+func auditedGlobalCall(c *Ctx, pkg, v string) bool {
+	src, err := os.ReadFile(filepath.Join(c.Out, "..", "ConcFacts.lean"))
+	if err != nil {
+		return true
+	}
+	i := strings.Index(string(src), "def auditedGlobalCalls")
+	if i < 0 {
+		return true
+	}
+	for _, m := range auditedGlobalRe.FindAllStringSubmatch(string(src)[i:], -1) {
+		if m[1] == pkg && m[2] == v {
+			return true
+		}
+	}
+	return false
 }
